@@ -83,6 +83,7 @@ def main(ctx, replay=None):
                 for S in picks:
                     run_case(ctx, rng, pandas, s, S, det, tensors, nonvan, e, relrows, outcome, tmp)
         ctx.sample({"outcome_table_rows": 16, "lattice_states": len(table)})
+        clause_cases(ctx, rng, pandas, exports, by, outcome)
         cli_cases(ctx, rng, exports, by, tmp)
     finally:
         shutil.rmtree(tmp, ignore_errors=True)
@@ -226,3 +227,67 @@ def cli_cases(ctx, rng, exports, by, tmp):
                                   {"system": s, "env": "cli", "det": det, "gross": False, "clause": "decision", "want": want,
                                    "exc": type(r.exception).__name__ if r.exception else None})
     ctx.cov["cli_runs"] = n
+
+
+def clause_cases(ctx, rng, pandas, exports, by, outcome):
+    """Two clauses that need special tables: (a) a contradiction confined to ONE of many volume rows is still refused;
+    (b) the drop tolerance is the one requested (components below it at all volumes omitted, others kept)."""
+    for s in fillspec.SYSTEMS:
+        if s == "triclinic":
+            continue
+        e = exports[s]
+        null = numpy.array([[x[0] / x[1] for x in v] for v in e["null"]], dtype=float)          # (d, 21) TLC-computed basis
+        d = null.shape[0]
+        cand = by.get((s, True), [])
+        if not cand:
+            continue
+        # ---- (a) many rows, one row off by a moderate-but-gross amount (residual >= 4 x tolerance for that row)
+        for nrows in (12, 40):
+            S = cand[int(rng.integers(0, len(cand)))]
+            rest = sorted(set(range(1, 22)) - set(S))
+            if not rest:
+                continue
+            t = int(rng.choice(rest))
+            P = rng.uniform(50.0, 300.0, (nrows, d))
+            X = P @ null
+            cols = {SYMS[n - 1]: X[:, n - 1].copy() for n in sorted(S)}
+            cols[SYMS[t - 1]] = X[:, t - 1].copy()
+            r = int(rng.integers(1, nrows))
+            cols[SYMS[t - 1]][r] += 1.5
+            df = pandas.DataFrame(cols)
+            for ign_res in (False, True):
+                want = outcome[(True, True, False, ign_res)]
+                got, out = call_fill(df.copy(), s, ignore_residuals=ign_res)
+                case = {"system": s, "clause": "one_row_inconsistent", "rows": nrows, "bad_row": r, "bad_symbol": SYMS[t - 1],
+                        "supplied": [SYMS[n - 1] for n in sorted(S)], "ignore_residuals": ign_res}
+                ctx.count(case)
+                if got != want:
+                    ctx.violation(f"{s}: {SYMS[t-1]} contradicts the relations by 1.5 GPa in row {r} of {nrows} (ignore_residuals={ign_res}): "
+                                  f"expected {want}, fill did {got}", case,
+                                  {"system": s, "env": "rows", "det": True, "gross": True, "clause": "decision", "want": want})
+        # ---- (b) requested drop tolerance
+        for mag, tol, kept in ((1e-5, 1e-3, False), (1e-5, None, True), (1e-10, 1e-12, True), (1e-10, None, False)):
+            i = int(rng.integers(0, d))
+            P = rng.uniform(50.0, 300.0, (3, d))
+            P[:, i] = mag * rng.uniform(1.0, 3.0, 3) * rng.choice([-1.0, 1.0])
+            X = P @ null
+            nonvan = [n for n in range(1, 22) if n not in set(e["vanishing"])]
+            df = pandas.DataFrame({SYMS[n - 1]: X[:, n - 1] for n in nonvan})
+            kw = {} if tol is None else {"drop_atol": tol}
+            eff = 1e-8 if tol is None else tol
+            got, out = call_fill(df.copy(), s, **kw)
+            case = {"system": s, "clause": "drop_atol", "magnitude": mag, "drop_atol": tol}
+            ctx.count(case)
+            if got != "accept":
+                continue
+            present = {c.lower() for c in out.columns}
+            for n in nonvan:
+                m = float(numpy.max(numpy.abs(X[:, n - 1])))
+                if m > 100 * eff and SYMS[n - 1] not in present:
+                    ctx.violation(f"{s}: component {SYMS[n-1]} (max |value| {m:.3g}) omitted although above the drop tolerance {eff:g}", case,
+                                  {"system": s, "env": "drop", "det": True, "gross": False, "clause": "drop_kept"})
+                    break
+                if m < eff / 100 and SYMS[n - 1] in present:
+                    ctx.violation(f"{s}: component {SYMS[n-1]} (max |value| {m:.3g}) kept although below the drop tolerance {eff:g} at all volumes", case,
+                                  {"system": s, "env": "drop", "det": True, "gross": False, "clause": "drop_omitted"})
+                    break
